@@ -119,6 +119,14 @@ ModifiersMerge ==               \* for declarations with enforced options: an ad
         /\ Same(E1.default, z) /\ DefaultAdmitted(E1)
         /\ Store(E1, z).r = "ok" /\ Store(D, z).r = "bad"
         /\ \A o \in 1..Len(D.options) : Store(E1, D.options[o]).r = "ok"
+ContributedOptionsAreEnforced ==  \* enforced options with an EMPTY declared list (every option comes from plugins, like neutronicsKernel):
+    IsDecl /\ ~D.hasCustom /\ D.enforced /\ Len(D.options) = 0 /\ D.default.t = "str" =>     \* until options arrive the type decides,
+        LET z == VStr("2R")                                                                    \* afterwards exactly the options are admitted
+            E == EffDecl([D EXCEPT !.mods = <<Opt(z), Dft(z)>>]) IN
+        /\ Effective(D) = [k |-> "coerce", ty |-> "str"]
+        /\ Effective(E) = [k |-> "in", opts |-> <<z>>]
+        /\ DefaultAdmitted(E)
+        /\ \A j \in 1..NU : (Store(E, U(j)).r = "ok") <=> PyEq(U(j), z)
 NoModifiersNoChange == IsDecl => EffDecl(D) = D
 
 \* ---- Python's == on the universe is an equivalence (In and literals rest on it); evaluated once
